@@ -428,6 +428,32 @@ func (fe *FuncEnc) run(extra []*Clause) {
 			fe.note("function %s has no return", relName(fn))
 		}
 	}
+	// `fresh`: callers assume the first result is nil or an object made by this activation; checked structurally on the
+	// SSA of every return (allocation, make, closure, nil, or the result of a callee that is itself `fresh`)
+	if fe.fc != nil && fe.fc.Fresh && fr.depth == 0 {
+		for ei, ex := range exits {
+			if len(ex.ret.Results) == 0 {
+				continue
+			}
+			switch ex.ret.Results[0].Type().Underlying().(type) {
+			case *types.Pointer, *types.Interface, *types.Map, *types.Chan, *types.Signature:
+			default:
+				continue // callers draw no conclusion from `fresh` for value-typed results
+			}
+			why := eng.notFresh(ex.ret.Results[0], map[ssa.Value]bool{})
+			label := "result-is-new"
+			if len(exits) > 1 {
+				label = fmt.Sprintf("result-is-new@ret%d", ei)
+			}
+			f := "true"
+			var err error
+			if why != "" {
+				f = "false"
+				err = fmt.Errorf("the returned value is not provably new: %s", why)
+			}
+			fe.addOblig(&Oblig{Kind: "fresh", Props: fe.fc.Props, Label: label, Reach: ex.cond, Formula: f, Src: "fresh: the result is nil or allocated by this call", Pos: fr.pos(ex.ret.Pos())}, err)
+		}
+	}
 	// sinks
 	for _, sk := range sinks {
 		css, err := fe.findCalls(sk.Call)
@@ -699,4 +725,58 @@ func (eng *Engine) establishedBy(label string) string {
 		return " [no establishing ensures among the packages loaded for this check]"
 	}
 	return " [established by ensures[" + label + "] of " + strings.Join(by, ", ") + "]"
+}
+
+// notFresh: "" when v is nil or an object created by the enclosing activation (or returned by a callee whose contract
+// says `fresh`); otherwise a description of the value that may be shared.
+func (eng *Engine) notFresh(v ssa.Value, seen map[ssa.Value]bool) string {
+	if seen[v] {
+		return ""
+	}
+	seen[v] = true
+	switch x := v.(type) {
+	case *ssa.Alloc, *ssa.MakeMap, *ssa.MakeChan, *ssa.MakeClosure, *ssa.MakeSlice:
+		return ""
+	case *ssa.Const:
+		if x.IsNil() {
+			return ""
+		}
+		return "constant " + x.String()
+	case *ssa.MakeInterface:
+		return eng.notFresh(x.X, seen)
+	case *ssa.ChangeInterface:
+		return eng.notFresh(x.X, seen)
+	case *ssa.ChangeType:
+		return eng.notFresh(x.X, seen)
+	case *ssa.Convert:
+		return eng.notFresh(x.X, seen)
+	case *ssa.Phi:
+		for _, e := range x.Edges {
+			if w := eng.notFresh(e, seen); w != "" {
+				return w
+			}
+		}
+		return ""
+	case *ssa.Extract:
+		if c, ok := x.Tuple.(*ssa.Call); ok && x.Index == 0 {
+			return eng.notFreshCall(c)
+		}
+	case *ssa.Call:
+		return eng.notFreshCall(x)
+	}
+	return describe(v, 0) + " (" + strings.TrimPrefix(fmt.Sprintf("%T", v), "*ssa.") + ")"
+}
+
+func (eng *Engine) notFreshCall(c *ssa.Call) string {
+	cc := c.Common()
+	if b, ok := cc.Value.(*ssa.Builtin); ok && (b.Name() == "append" || b.Name() == "new") {
+		return ""
+	}
+	if f := cc.StaticCallee(); f != nil {
+		if fc := eng.contractFor(f); fc != nil && fc.Fresh {
+			return ""
+		}
+		return "result of " + fullName(f) + " (no `fresh` contract)"
+	}
+	return "result of a dynamic call"
 }
